@@ -40,6 +40,7 @@ class Generated:
         self.counters = {}
         self.trusted = []      # descriptions of trusted items
         self.fn_keys = []
+        self.missing = []      # contracted functions that no longer exist: (file, key, props)
     def text(self):
         return '\n'.join(self.lines) + '\n'
 
@@ -65,9 +66,11 @@ def _emit_text(g, text, props, tag):
         if re.search(r'\bassume\s*\(', ln) and not ln.strip().startswith('//'):
             g.trusted.append('assume in ghost text: ' + ln.strip()[:120])
 
-def generate(unit, repo_src=None):
+def generate(unit, repo_src=None, modes=None):
     repo_src = repo_src or REPO_SRC
+    modes = modes or {}
     g = Generated()
+    g.modes = dict(modes)
     c = g.counters
     parts = unit.parts(repo_src, g) if callable(unit.parts) else unit.parts
     for part in parts:
@@ -136,15 +139,19 @@ def generate(unit, repo_src=None):
                 from .splice import rewrite_dyn_calls
                 rewrite_dyn_calls(f, fn, ed, c)
             spec = sf.fns.get(key)
+            md = modes.get(key, 'full')
+            if spec is None and md == 'external':
+                ed.replace(t[fn.i_bo].a, t[fn.i_bc].b, '{ unimplemented!() }')
+                ed.insert(t[fn.i_attr].a, '#[verifier::external_body]\n')
             if spec is not None:
-                apply_fn(f, ed, spec, c)
+                apply_fn(f, ed, spec, c, md)
                 if spec.trust:
                     h = hashlib.sha256(fn.text().encode()).hexdigest()[:16]
                     g.trusted.append('trusted body (pinned text %s): %s' % (h, key))
             g.fn_keys.append(key)
         missing = [k for k in sf.fns if k not in f.fns]
-        if missing:
-            raise AnchorLost('%s: contracted functions not found: %s' % (sf.name, ', '.join(missing)))
+        for k_ in missing:
+            g.missing.append((sf.name, k_, list(sf.fns[k_].props) or list(sf.props)))
         text, org = ed.apply()
         # textual rules with counters (rule 13 etc.) are applied on the edited text but only change listed patterns
         for (rname, pat, rep) in sf.regex_rules:
